@@ -19,7 +19,10 @@ CINames == CIRates \cup {"tar", "trr", "far", "frr"}
 
 P6(k, n) == (k * FS) \div n
 P9(k, n) == ((k * FS) \div n) * 1000 + (((k * FS) % n) * 1000) \div n
-Half6(k2, n2, a) == FMul(Z6(a), SE6(k2, n2))
+(* significance levels are table keys (strings), in increasing order                 *)
+AlphaOrder == <<"1e-15", "1e-12", "1e-9", "10", "50", "100", "500">>
+Rank(a) == CHOOSE i \in DOMAIN AlphaOrder : AlphaOrder[i] = a
+Half6(k2, n2, a) == FMul(Tables.z6[a], SE6(k2, n2))
 
 (* expected limits for one rate / alpha in the units of the variant           *)
 CIOk(e, name, a) ==
@@ -27,27 +30,27 @@ CIOk(e, name, a) ==
       r  == AliasOf(name)
       k  == RateNum(r, m)
       n  == RateDen(r, m)
-      c  == e.ci[name][ToString(a)]          \* <<lo, hi, isnan, mid, half>>
+      c  == e.ci[name][a]          \* <<lo, hi, isnan, mid, half>>
       k2 == IF e.scale = "half" THEN k ELSE 2 * k
       n2 == IF e.scale = "half" THEN n ELSE 2 * n
       h6 == Half6(k2, n2, a)
   IN IF n = 0 THEN c[3] = 1
      ELSE /\ c[3] = 0
-          /\ c[5] >= 0 /\ c[5] <= 3000000          \* sane half-width (also guards overflow)
+          /\ c[5] >= 0 /\ c[5] <= (IF e.scale = "big" THEN 8000000 ELSE 20000000)   \* sane (guards overflow)
           /\ IF e.scale = "big"
              THEN /\ Close(c[4], P9(k, n), 3)                                  \* centred on the rate
-                  /\ Close(c[5] * 512, h6 * 500, 1000 + h6 \div 400)           \* half-width / 2^10
+                  /\ Close(c[5] * 256, h6 * 250, 500 + h6 \div 800)           \* half-width / 2^10
              ELSE /\ Close(c[4], P6(k, n), 2)
-                  /\ Close(c[5], h6, 2)
+                  /\ Close(c[5], h6, 3 + Tables.z6[a] \div FS)      \* table rounding scales with z
 
 TraceMetrics ==
   /\ IsEvent("metrics")
   /\ LET e == Log[l]
          m == e.m
          okv == e.exc = "" /\ e.shape_ok
-         A == {a \in {10, 50, 100, 500} : ToString(a) \in DOMAIN e.ci["tpr"]}
+         A == {AlphaOrder[i] : i \in DOMAIN AlphaOrder} \cap DOMAIN e.ci["tpr"]
          hasCI == e.scale # "tiny"
-         lim(name, a) == e.ci[name][ToString(a)]
+         lim(name, a) == e.ci[name][a]
      IN Report(e, Failing({
           <<"C04.raised", e.exc = "">>,
           <<"C04.shape", e.exc # "" \/ e.shape_ok>>,
@@ -65,7 +68,7 @@ TraceMetrics ==
           <<"C04.ci_nan_iff_rate_nan", ~okv \/ ~hasCI \/ \A name \in CINames : \A a \in A :
                (lim(name, a)[3] = 1) <=> IsNaN(e.rates[name])>>,
           <<"C04.ci_nested", ~okv \/ ~hasCI \/ \A name \in CINames : \A a \in A, b \in A :
-               (a < b /\ lim(name, a)[3] = 0 /\ lim(name, b)[3] = 0) =>
+               (Rank(a) < Rank(b) /\ lim(name, a)[3] = 0 /\ lim(name, b)[3] = 0) =>
                   lim(name, a)[1] <= lim(name, b)[1] + 1 /\ lim(name, b)[2] <= lim(name, a)[2] + 1>>,
           <<"C04.ci_mirror", ~okv \/ ~hasCI \/ \A name \in CIRates : \A a \in A :
                LET x == lim(name, a)  y == lim(Complement(name), a)
